@@ -1197,7 +1197,21 @@ impl Server {
         
         // Execute commands
         let mut results = Vec::new();
+        let mut db_index = db_index;
         for cmd_parts in commands_to_execute.iter() {
+            // A queued SELECT switches the database for the rest of the transaction and for
+            // the connection afterwards, exactly as it does outside a transaction
+            let is_select = matches!(cmd_parts.first(), Some(RespFrame::BulkString(Some(name)))
+                if name.eq_ignore_ascii_case(b"SELECT"));
+            if is_select {
+                let response = self.handle_select(cmd_parts, conn_id)?;
+                if !response.is_error() {
+                    db_index = self.connections.with_connection(conn_id, |conn| conn.db_index).unwrap_or(db_index);
+                }
+                results.push(response);
+                continue;
+            }
+            
             match self.process_command_parts(&cmd_parts, db_index) {
                 Ok(response) => results.push(response),
                 Err(e) => {
